@@ -152,7 +152,7 @@ impl TypeDef {
     #[verifier::external_body] pub fn or_null(self) -> (r: TypeDef) ensures r.m@ == self.m@.insert(NULL), r.fall@ == self.fall@ { unimplemented!() }
     #[verifier::external_body] pub fn is_never(&self) -> (r: bool) ensures r == self.spec_never() { unimplemented!() }
     #[verifier::external_body] pub fn returns(&self) -> (r: &KindR) ensures r.m@ == self.spec_returns() { unimplemented!() }
-    #[verifier::external_body] pub fn with_returns(self, k: KindR) -> (r: TypeDef) ensures r.m@ == self.m@, r.fall@ == self.fall@, r.spec_returns() == k.m@ { unimplemented!() }
+    #[verifier::external_body] pub fn with_returns(self, k: KindR) -> (r: TypeDef) ensures r.m@ == self.m@, r.fall@ == self.fall@, r.spec_returns() == k.m@, r.spec_never() == self.spec_never() { unimplemented!() }
     // result.returns_mut().merge_keep(k, false): only the `returns` component changes
     #[verifier::external_body] pub fn returns_merge_keep(&mut self, k: KindR)
         ensures final(self).m@ == old(self).m@, final(self).fall@ == old(self).fall@, final(self).spec_returns() == old(self).spec_returns().union(k.m@) { unimplemented!() }
@@ -222,3 +222,10 @@ pub open spec fn type_of(inner: Seq<ExprB>, s0: TypeStateB, k: int) -> TypeDef {
 pub open spec fn reachable(inner: Seq<ExprB>, s0: TypeStateB, k: int) -> bool {
     forall|i: int| 0 <= i < k ==> !(#[trigger] type_of(inner, s0, i)).spec_never()
 }
+
+// ---- return.rs
+impl TypeDef {
+    #[verifier::external_body] pub fn never() -> (r: TypeDef) ensures r.m@ == Set::<int>::empty(), r.spec_never(), !r.fall@ { unimplemented!() }
+    #[verifier::external_body] pub fn kind(&self) -> (r: &KindR) ensures r.m@ == self.m@ { unimplemented!() }
+}
+pub struct Return { pub span: Opaque, pub expr: Box<ExprT> }
